@@ -95,3 +95,25 @@ func init() {
 			Nontrivial: func(s *wireSchema, cs *wireCase) bool { return true }})
 	}
 }
+
+func init() {
+	Registry["C08"] = func(c *Ctx) (int, error) {
+		return RunWire(c, &WireSpec{GenModule: "Gen_Wire", GenConsts: map[string]string{"OptMode": `"default"`, "ValMode": `"all"`, "Muts": `"none"`}, GenInvs: wireTheorems,
+			Op: "faults", Errs: []string{"boom", "eof", "unexpected"}, JudgeProp: "C08", DevProps: []string{"C08"}, Level: "model_checking",
+			Rule: "cases = TLC-enumerated (shape x context x value); reader: for EVERY byte offset k < len the reader fails after k bytes with {custom error, io.EOF, io.ErrUnexpectedEOF} in the styles error-after-last-byte / error-with-last-bytes / one-byte-reads; writer: for EVERY call index k below the number of Write calls of a fault-free run the k-th Write fails (writing nothing / half); non-trivial if the encoding has more than 2 bytes",
+			Assume: wireAssume,
+			CaseFilter: func(s *wireSchema, cs *wireCase) bool { return len(cs.Enc) <= 400 },
+			Nontrivial: func(s *wireSchema, cs *wireCase) bool { return len(cs.Enc) > 2 }})
+	}
+}
+
+func init() {
+	Registry["C05"] = func(c *Ctx) (int, error) {
+		return RunWire(c, &WireSpec{GenModule: "Gen_Wire", GenConsts: map[string]string{"OptMode": `"default"`, "ValMode": `"all"`, "Muts": `"stream"`}, GenInvs: wireTheorems,
+			Op: "stream", JudgeProp: "C05", DevProps: []string{"C05"}, Level: "model_checking",
+			Rule: "histories = TLC-enumerated sequences of 3 records per (shape x context x value) written back to back (reference bytes, and the real EncodeBebop); schedules = unfragmented + every cyclic cap pattern of length 1-2 (quick) / 1-3 (thorough) over {1,2,3,5} bytes, each greedy (reader holds the whole stream + trailing bytes: over-consumption shows) and starved (reader delivers nothing beyond the current record: asking beyond it is flagged); exhaustive Deliver schedules are model-checked in StreamCodec.tla; non-trivial if the first record has more than 2 bytes",
+			Assume: append([]string{"a Read issued when the current record is exhausted is what would block on a live connection"}, wireAssume...),
+			CaseFilter: func(s *wireSchema, cs *wireCase) bool { return len(cs.Enc) <= 200 && (c.Tier == "thorough" || (cs.Vi+cs.Sid+c.Seed)%2 == 0) },
+			Nontrivial: func(s *wireSchema, cs *wireCase) bool { return len(cs.Enc) > 2 }})
+	}
+}
